@@ -1,5 +1,7 @@
 import HedVerif.Driver.Util
+import HedVerif.Driver.C08
 import HedVerif.Model.Bids
+import HedVerif.Model.BidsV
 open Lean
 namespace HedVerif.Driver.C16
 open HedVerif HedVerif.Driver HedVerif.Bids
@@ -9,46 +11,133 @@ def errName : PErr → String
   | .badSuffixPiece => "BadSuffixPiece"
   | .badKeyValue => "BadKeyValue"
 
-def colsOf : Json → Except String (Columns Json)
-  | Json.null => .ok []
-  | Json.obj kvs => .ok (kvs.toList.map fun (k, v) => (k.toList, v))
-  | _ => .error "content must be an object or null"
+/-- plain JSON of a model value -/
+partial def plain : SJson → Json
+  | .null => Json.null
+  | .bool b => Json.bool b
+  | .num n => jint n
+  | .str s => jstr s
+  | .arr xs => jarr (xs.map plain)
+  | .obj kvs => jobj (kvs.map fun (k, v) => (String.ofList k, plain v))
 
-def entryOf (j : Json) : Except String (Path × Columns Json) := do
-  let p ← (← getArr j "path").mapM asStr
-  let c ← colsOf (← getVal j "content")
-  pure (p, c)
+/-- content of a `.json` file in the tagged encoding of `Driver/C08.decode`: object → columns, else `none` -/
+def contentOf (j : Json) : Except String (Option (Columns SJson)) := do
+  match ← C08.decode j with
+  | .obj kvs => pure (some kvs)
+  | _ => pure none
+
+/-- `{"f":[[name] | [name, content],…], "d":[[name, dir],…]}` in scandir order -/
+partial def dirOf (j : Json) : Except String (Dir SJson) := do
+  let fs ← (← getArr j "f").mapM fun e => match e with
+    | Json.arr #[Json.str n] => pure (n.toList, (some [] : Option (Columns SJson)))
+    | Json.arr #[Json.str n, c] => do pure (n.toList, ← contentOf c)
+    | _ => .error "file entry must be [name] or [name, content]"
+  let ds ← (← getArr j "d").mapM fun e => match e with
+    | Json.arr #[Json.str n, d] => do pure (n.toList, ← dirOf d)
+    | _ => .error "dir entry must be [name, dir]"
+  pure (Dir.mk fs (ds.foldr (fun nd acc => DirList.cons nd.1 nd.2 acc) DirList.nil))
 
 def pathStr (p : Path) : String := "/".intercalate (p.map String.ofList)
-def colsJson (c : Columns Json) : Json := jobj (c.map fun (k, v) => (String.ofList k, v))
-def chainJson (c : List (PFile Json)) : Json := jarr (c.map fun s => Json.str (pathStr s.path))
+def colsJson (c : Columns SJson) : Json := plain (.obj c)
+def chainJson (c : List (PFile SJson)) : Json := jarr (c.map fun s => Json.str (pathStr s.path))
+def pathsJson (t : Tree SJson) : Json := jarr (t.map fun f => Json.str (pathStr f.1))
 
-def fileJson (g : Group Json) (o : PFile Json) : Json :=
+def fileJson (g : Group SJson) (o : PFile SJson) : Json :=
   jobj [("path", Json.str (pathStr o.path)),
         ("suffix", jopt jstr o.suffix),
         ("entities", jarr (o.ents.map fun (k, v) => jarr [jstr k, jstr v])),
         ("chain", chainJson (chain g o)),
+        ("chosen_chain", chainJson (chosenChain g o)),
         ("spec_chain", chainJson (specChain g o)),
         ("has_sidecar", jbool (hasSidecar g o)),
+        ("load_issues", jnat (loadIssueCount g o)),
         ("merged", colsJson (mergeImpl g o)),
         ("merged_old", colsJson (mergeImplOld g o)),
         ("spec", colsJson (mergeSpec g o))]
 
-/-- requests of property C16:
-`{"op":"c16.group","tree":[{"path":[comp,…,name],"content":object|null},…] (walk order),
-  "excluded":[name,…],"suffix":"events"}` →
-`{"error":code}` or `{"sidecars":[file…],"datafiles":[file…]}` with, per file, its chain, the code's
-merge (fixed and unchanged algorithm) and the property's merge. -/
+def filterOf (j : Json) : Except String NameFilter := do
+  pure ⟨← (← getArr j "prefixes").mapM asStr, ← (← getArr j "suffixes").mapM asStr, ← (← getArr j "exts").mapM asStr⟩
+
+def sissueJson (file : Path) (i : SidecarV.Issue) : Json :=
+  jarr [Json.str (String.ofList (file.getLastD [])), jstr i.code, jnat i.sev, jopt jstr i.col, jopt jstr i.key]
+
+/-- the table layer as data: the `(code, severity)` list the real `TabularInput.validate` gave for a data
+file (with the oracle's merged sidecar), keyed by path; fed through `Tabular.validate` as mapping issues
+of an otherwise empty table -/
+def stubCfg (is : List Tabular.RIssue) : Tabular.Cfg :=
+  { rowAdj := 2, hasOnset := false, columns := [], catCols := [], mapIssues := is, refs := [], allColumns := [],
+    maskByRow := true, guardDelay := true, kKey := ⟨[], 1⟩, kRef := ⟨[], 1⟩, kUnordered := ⟨[], 1⟩,
+    kTemporal := fun _ => ⟨[], 1⟩,
+    o := { cell := fun _ => [], full := fun _ => [], pfull := fun _ => [], banned := fun _ => [],
+           items := fun _ => none, markers := fun _ => [], fold := id } }
+
+def tableOracleOf (j : Json) : Except String (List (Path × List Tabular.RIssue)) := do
+  (← getArr j "tables").mapM fun e => match e with
+    | Json.arr #[p, is] => do
+        let path ← (← asArr p).mapM asStr
+        let l ← (← asArr is).mapM fun c => match c with
+          | Json.arr #[Json.str code, sev] => do pure (⟨code.toList, ← asNat sev⟩ : Tabular.RIssue)
+          | _ => .error "table issue must be [code, severity]"
+        pure (path, l)
+    | _ => .error "tables entries must be [path, issues]"
+
+def dissueJson : DIssue → Json
+  | .sidecar f i => sissueJson f i
+  | .table f i => jarr [Json.str (String.ofList (f.getLastD [])), jstr i.kind, jnat i.sev, Json.null, Json.null]
+
+def runExnName : RunExn → String
+  | .fileError e => errName e
+  | .validation (.sidecar _ e) => "sidecar:" ++ C08.exnName e
+  | .validation (.table _ _) => "table"
+
+/-- requests of property C16 (trees as nested directories in scandir order):
+* `c16.group {dir, excluded, suffix}` → discovery, chains and merges of every object, or the `HedFileError` code
+* `c16.discover {dir, excluded, prefixes, suffixes, exts, skip_empty}` → `get_file_list`, `get_dir_dictionary`,
+  and the filter-of-listing characterisation
+* `c16.cli {dir, format, output, cfw, basic/full/defs/repna/defissues (string layer), tables}` → `cliMain`
+* `c16.exit {issues}` -/
 def handle (op : String) (j : Json) : Option (Except String Json) :=
   match op with
   | "c16.group" => some do
-      let t ← (← getArr j "tree").mapM entryOf
+      let D ← dirOf (← getVal j "dir")
       let excl ← (← getArr j "excluded").mapM asStr
       let sfx ← getStr j "suffix"
+      let t := D.listing
+      let walk := jobj [("json", pathsJson (getFileList D ⟨[], [sfx], [jsonExt]⟩ excl)),
+                        ("tsv", pathsJson (getFileList D ⟨[], [sfx], [tsvExt]⟩ excl)),
+                        ("json_flat", pathsJson (discover t excl sfx jsonExt)),
+                        ("tsv_flat", pathsJson (discover t excl sfx tsvExt))]
       match load t excl sfx with
-      | .error e => pure <| jobj [("error", Json.str (errName e))]
+      | .error e => pure <| jobj [("error", Json.str (errName e)), ("walk", walk)]
       | .ok g => pure <| jobj [("sidecars", jarr (g.sidecars.map (fileJson g))),
-                               ("datafiles", jarr (g.datafiles.map (fileJson g)))]
+                               ("datafiles", jarr (g.datafiles.map (fileJson g))), ("walk", walk)]
+  | "c16.discover" => some do
+      let D ← dirOf (← getVal j "dir")
+      let excl ← (← getArr j "excluded").mapM asStr
+      let f ← filterOf j
+      let skip := getBoolD j "skip_empty" true
+      let spec := D.listing.filter fun e => visible excl e.1 && checkFilename f (e.1.getLastD [])
+      pure <| jobj [("files", pathsJson (getFileList D f excl)), ("spec", pathsJson spec),
+                    ("dict", jarr ((getDirDictionary D f excl skip).map fun (d, l) =>
+                      jarr [Json.str (pathStr d), jarr (l.map fun p => Json.str (pathStr p))]))]
+  | "c16.cli" => some do
+      let D ← dirOf (← getVal j "dir")
+      let O ← C08.oracleOf j
+      let tabs ← tableOracleOf j
+      let fmt ← match ← getString j "format" with
+        | "text" => pure Fmt.text | "json" => pure Fmt.json | "json_pp" => pure Fmt.jsonPp
+        | f => .error s!"bad format {f}"
+      let out := match j.getObjVal? "output" with
+        | .ok (Json.str s) => some s.toList
+        | _ => none
+      let W : Oracles := { sidecar := fun _ => O,
+                           table := fun d _ => (stubCfg (((tabs.find? (·.1 == d.path)).map (·.2)).getD
+                                                  [⟨"ORACLE-MISS-TABLE".toList, 1⟩]), []) }
+      match cliMain W D.listing ⟨fmt, out, getBoolD j "cfw" false⟩ with
+      | .error e => pure <| jobj [("raise", Json.str (runExnName e))]
+      | .ok r => pure <| jobj [("exit", jnat r.exit),
+                               ("dest", match r.dest with | .stdout => Json.null | .file f => jstr f),
+                               ("issues", jarr (r.issues.map dissueJson))]
   | "c16.exit" => some do
       pure <| jobj [("exit", jnat (exitCode (← getArr j "issues")))]
   | _ => none
